@@ -45,7 +45,7 @@ deriving Inhabited
 
 /-- is bit `b` of signal `i` driven by this program? -/
 def progDrives (ctx : Ctx) (prog : List Prog) (i b : Nat) : Bool :=
-  (Prog.listTargets prog).any fun t => drivenBy t i b ctx
+  (Prog.listTargets prog).any fun t => drivenP ctx t i b
 
 /-- per bit: take `new` where `sel`, else `old`; re-read in the signal's shape -/
 def selectBits (s : Shape) (sel : Nat → Bool) (new old : Int) : Int :=
